@@ -72,28 +72,52 @@ def prange_loops(f):
     return out
 
 
-def dispatch_sites(prog, f):
-    """kernel dispatch idiom inside f:  `var = [self.k1, self.k2][idx]` ... `var(args)`.
+def _candidates(e):
+    """method names a dispatch expression can evaluate to: [self.k1, self.k2][i] / (self.k1, self.k2)[i] / self.k1 if c else self.k2
+    (nested) / self.k  - None when some alternative is not a method of self"""
+    if isinstance(e, ast.Attribute) and isinstance(e.value, ast.Name) and e.value.id == 'self':
+        return [e.attr]
+    if isinstance(e, ast.Subscript) and isinstance(e.value, (ast.List, ast.Tuple)) and e.value.elts:
+        out = []
+        for x in e.value.elts:
+            c = _candidates(x)
+            if c is None:
+                return None
+            out.extend(c)
+        return out
+    if isinstance(e, ast.IfExp):
+        a, b = _candidates(e.body), _candidates(e.orelse)
+        # in `k2 if idx else k1` position 0 (idx false) is the else arm: keep the list in index order
+        return None if a is None or b is None else b + a
+    return None
 
-    -> [(var, [candidate method names], list node, [call nodes of var])]
+
+def dispatch_sites(prog, f):
+    """kernel dispatch idiom inside f:  `var = [self.k1, self.k2][idx]` (or a conditional expression, or one assignment per
+    branch) ... `var(args)`.
+
+    -> [(var, [candidate method names], first assignment node, [call nodes of var])]
     """
-    out = []
+    by_var = {}
     for n in ast.walk(f.node):
-        if isinstance(n, ast.Assign) and len(n.targets) == 1 and isinstance(n.targets[0], ast.Name) \
-                and isinstance(n.value, ast.Subscript) and isinstance(n.value.value, (ast.List, ast.Tuple)):
-            elts = n.value.value.elts
-            names = []
-            for e in elts:
-                if isinstance(e, ast.Attribute) and isinstance(e.value, ast.Name) and e.value.id == 'self':
-                    names.append(e.attr)
-                else:
-                    names = None
-                    break
-            if names:
-                var = n.targets[0].id
-                calls = [c for c in ast.walk(f.node) if isinstance(c, ast.Call) and isinstance(c.func, ast.Name)
-                         and c.func.id == var]
-                out.append((var, names, n, calls))
+        if isinstance(n, ast.Assign) and len(n.targets) == 1 and isinstance(n.targets[0], ast.Name):
+            by_var.setdefault(n.targets[0].id, []).append(n)
+    out = []
+    for var, assigns in by_var.items():
+        cands = [_candidates(n.value) for n in assigns]
+        if any(c is None for c in cands):
+            continue
+        names = []
+        for c in cands:
+            for x in c:
+                if x not in names:
+                    names.append(x)
+        if len(names) < 2:
+            continue
+        calls = [c for c in ast.walk(f.node) if isinstance(c, ast.Call) and isinstance(c.func, ast.Name) and c.func.id == var]
+        if not calls:
+            continue
+        out.append((var, names, assigns[0], calls))
     return out
 
 
